@@ -204,6 +204,12 @@ def check_case(rep, st, case):
                 thunk = params.make(cls, asg, c, default=kind == "default")
             status, res = attempt(thunk)
             judge(rep, st, cls, off, rid, case["expect"], status, res, what, replay)
+    elif kind == "noaffinity":
+        est = params.make(cls, asg, c)
+        what = f"{cls}({off}='precomputed').fit(X) without the matrix"
+        status, res = attempt(lambda: est.fit(c.X))
+        if judge(rep, st, cls, off, "precomputed-without-matrix", "reject", status, res, what, replay):
+            no_fitted_model(rep, st, est, cls, off, "precomputed-without-matrix", what, replay, c)
     elif kind == "data":
         X, extra = params.malformed(off, c)
         est = params.make(cls, extra, c)
